@@ -252,7 +252,23 @@ def run(ctx) -> None:
     t_none = match.test_nodes(cfg, lambda t: "T" if (match.compare_parts(t) and isinstance(match.compare_parts(t)[0], ast.Name)
                                                      and match.compare_parts(t)[0].id == "environment_name" and isinstance(match.compare_parts(t)[1], ast.Eq)
                                                      and isinstance(match.compare_parts(t)[2], ast.Constant) and match.compare_parts(t)[2].value == "none") else None)
-    ctx.require(bool(t_default) and bool(t_none), "anchor missing: branch tests of environmentWithName")
+    # an equality with the one literal is an exact default test too
+    t_default += match.test_nodes(cfg, lambda t: "T" if (match.compare_parts(t) and isinstance(match.compare_parts(t)[0], ast.Name)
+                                                         and match.compare_parts(t)[0].id == "environment_name" and isinstance(match.compare_parts(t)[1], ast.Eq)
+                                                         and isinstance(match.compare_parts(t)[2], ast.Constant) and match.compare_parts(t)[2].value == "environment") else None)
+    # dispatch tests on the name that are NOT exact: `name in '<text>'` is a substring test, startswith/endswith/find are prefix tests
+    inexact = [n for n in cfg.nodes if n.kind == "test" and n.ast is not None and (
+        (isinstance(n.ast, ast.Compare) and isinstance(n.ast.ops[0], (ast.In, ast.NotIn)) and isinstance(n.ast.left, ast.Name)
+         and n.ast.left.id == "environment_name" and isinstance(match.resolve_local(ewn, n.ast.comparators[0]), ast.Constant)
+         and isinstance(match.resolve_local(ewn, n.ast.comparators[0]).value, str))
+        or (isinstance(n.ast, ast.Call) and last_attr(n.ast) in ("startswith", "endswith", "find", "count") and isinstance(n.ast.func.value, ast.Name)
+            and n.ast.func.value.id == "environment_name"))]
+    for n in inexact:
+        ctx.ob("C17.R2-branch-table", n.ast, False,
+               "the environment is selected with %s, a substring/prefix test of the NAME: every environment whose name is part of the text "
+               "('env', 'iron', 'ment' ..) is routed to this branch and gets the default (or the whole launch) environment instead of its own"
+               % short(n.ast, 60), construct="environmentWithName: exact test of the environment name")
+    ctx.require((bool(t_default) or bool(inexact)) and bool(t_none), "anchor missing: branch tests of environmentWithName")
     for u in upd_default:
         ok = match.only_via_edges(cfg, u, t_default)
         ctx.ob("C17.R2-branch-table", u.ast, ok, "the default environment is added only when no environment is selected" if ok else
